@@ -41,7 +41,7 @@ def _field_role_session(ty, adts):
     blob = " ".join(texts)
     if "oneshot::Sender<" in blob:
         return "awaiting_ack"
-    if "UnboundedSender<codec::packet::RxPacket>" in blob:
+    if re.search(r"UnboundedSender<codec::(packet::RxPacket|publish::PublishRx)>", blob):
         return "subscriptions"
     if "bytes::Bytes" in blob:
         return "retrasmit_queue"
@@ -56,10 +56,118 @@ def _is_limit_enum(a):
         and sorted(len(v["fields"]) for v in a["variants"]) == [0, 1] and [f["ty"] for v in a["variants"] for f in v["fields"]][0] == "u32"
 
 
+def flatten_embedded_request(d):
+    """Normal form: the (encoded packet, response channel) pair that every message to the context carries, factored out
+    into a private struct of its own and embedded in the message payloads (`AwaitAck { action_id, request: Request<RxPacket> }`)
+    is, in the fact base, the two plain fields of each payload struct: `msg.request.packet` -> `msg.packet`, the literal
+    `AwaitAck { action_id, request: Request { packet, response_channel } }` -> `AwaitAck { action_id, packet, response_channel }`.
+    The struct itself (a payload of its own when used directly, its methods) stays."""
+    adts = {a["path"]: a for a in d["adts"]}
+    S = None
+    for a in d["adts"]:
+        if a["kind"] == "struct" and a["path"].startswith(MSG) and len(a["variants"][0]["fields"]) == 2:
+            tys = sorted(re.sub(r"<.*$", "", x["ty"]) for x in a["variants"][0]["fields"])
+            if tys == ["bytes::BytesMut", "futures::futures_channel::oneshot::Sender"]:
+                S = a
+    if S is None:
+        return None
+    sp = S["path"]
+    snames = [x["name"] for x in S["variants"][0]["fields"]]
+    owners = {}
+    for a in d["adts"]:
+        if a is S or a["kind"] != "struct" or _layer(a["path"]) != "client":
+            continue
+        for x in a["variants"][0]["fields"]:
+            if re.sub(r"<.*$", "", x["ty"]) == sp:
+                owners[a["path"]] = (a, x)
+    if not owners:
+        return None
+
+    def fix_place(pl):
+        pr = pl["p"]
+        out = []
+        j = 0
+        while j < len(pr):
+            p = pr[j]
+            nxt = pr[j + 1] if j + 1 < len(pr) else None
+            if isinstance(p, dict) and "f" in p and p.get("adt") in owners and p.get("n") == owners[p["adt"]][1]["name"] \
+                    and isinstance(nxt, dict) and "f" in nxt and nxt.get("adt") == sp:
+                out.append({"f": 200 + snames.index(nxt["n"]), "n": nxt["n"], "adt": p["adt"], "ty": nxt.get("ty")})
+                j += 2
+                continue
+            out.append(p)
+            j += 1
+        pl["p"] = out
+
+    def walk(x):
+        if isinstance(x, dict):
+            if "l" in x and "p" in x and isinstance(x["p"], list) and isinstance(x["l"], int):
+                fix_place(x)
+                return
+            for v in x.values():
+                walk(v)
+        elif isinstance(x, list):
+            for v in x:
+                walk(v)
+    for f in d["fns"]:
+        walk(f.get("blocks"))
+        walk(f.get("debug"))
+        # literals
+        lits = {}
+        for b in f.get("blocks") or []:
+            for st in b["stmts"]:
+                if st["k"] == "assign" and not st["lhs"]["p"] and st["rv"]["k"] == "agg" and st["rv"].get("adt") == sp:
+                    lits.setdefault(st["lhs"]["l"], []).append(st["rv"])
+        for b in f.get("blocks") or []:
+            for st in b["stmts"]:
+                rv = st.get("rv") if st["k"] == "assign" else None
+                if rv and rv["k"] == "agg" and rv.get("adt") in owners:
+                    fn_ = owners[rv["adt"]][1]["name"]
+                    names = rv.get("fields") or []
+                    if fn_ in names:
+                        k = names.index(fn_)
+                        o = rv["ops"][k]
+                        if o.get("k") in ("move", "copy") and not o["pl"]["p"] and len(lits.get(o["pl"]["l"], [])) == 1:
+                            inner = lits[o["pl"]["l"]][0]
+                            order = inner.get("fields") or snames
+                            rv["fields"] = names[:k] + list(order) + names[k + 1:]
+                            rv["ops"] = rv["ops"][:k] + list(inner["ops"]) + rv["ops"][k + 1:]
+    for path, (a, x) in owners.items():
+        targ = re.search(r"<(.*)>$", x["ty"])
+        fs = []
+        for g in S["variants"][0]["fields"]:
+            ty = g["ty"]
+            if targ:
+                ty = re.sub(r"(?<![\w:])T(?![\w:])", targ.group(1), ty)
+            fs.append({"name": g["name"], "ty": ty, "pub": False})
+        cf = a["variants"][0]["fields"]
+        k = cf.index(x)
+        a["variants"][0]["fields"] = cf[:k] + fs + cf[k + 1:]
+    return {"embedded": sp, "owners": sorted(owners)}
+
+
 def detect_structs(d):
     """{"adts": {actual_path: canonical_path}, "fields": {(canonical_adt, canonical_field): actual_field}}"""
     adts = {a["path"]: a for a in d["adts"]}
     out = {"adts": {}, "fields": {}}
+    # public types of the core layer that the rules name by path, wherever in the layer they are defined (`core::qos::QoS`
+    # re-exported from base_types): the type name is public API, the module is not
+    for a in d["adts"]:
+        if _layer(a["path"]) == "core" and a["path"].split("::")[-1] in ("QoS", "VarSizeInt", "NonZero", "UTF8String", "Binary") and a["path"].count("::") == 2 \
+                and not a["path"].startswith("core::base_types::"):
+            out["adts"][a["path"]] = "core::base_types::" + a["path"].split("::")[-1]
+    # the two halves of the framing layer, wherever in the io layer they live (`io::tx_stream::TxPacketStream`)
+    for a in d["adts"]:
+        if a["kind"] != "struct" or _layer(a["path"]) != "io":
+            continue
+        fs = a["variants"][0]["fields"]
+        ftys = [x["ty"] for x in fs]
+        if len(fs) == 1 and re.fullmatch(r"[A-Z]\w*", ftys[0]) and any(
+                f_["kind"] == "fn" and _strip_g(f_.get("impl_self") or "") == a["path"] and not f_.get("impl_trait") and any(t_.replace(" ", "") in ("&[u8]", "&'a[u8]") for t_ in (f_.get("sig_in") or []))
+                for f_ in d["fns"]):
+            out["adts"][a["path"]] = "io::packet_stream::TxPacketStream"
+        elif any(t == "bytes::BytesMut" for t in ftys) and any(t.startswith("std::ops::Range<usize>") for t in ftys) and any(re.fullmatch(r"[A-Z]\w*", t) for t in ftys):
+            out["adts"][a["path"]] = "io::packet_stream::RxPacketStream"
     for a in d["adts"]:
         if a["kind"] != "struct" or _layer(a["path"]) != "client":
             continue
@@ -85,7 +193,7 @@ def detect_structs(d):
             # payload structs of the messages handed to the context
             has_buf = any(t == "bytes::BytesMut" for t in ftys)
             one = [t for t in ftys if "oneshot::Sender<" in t]
-            stream = [t for t in ftys if "UnboundedSender<codec::packet::RxPacket>" in t]
+            stream = [t for t in ftys if re.search(r"UnboundedSender<codec::(packet::RxPacket|publish::PublishRx)>", t)]
             if has_buf and len(one) == 1:
                 if stream and len(fs) == 5:
                     canon = MSG + "Subscribe"
@@ -146,11 +254,16 @@ def detect_fns(d):
             put(f, f["name"])
             continue
         if lay == "client":
-            if asy and any(t == "codec::packet::RxPacket" for t in sig) and any(t == S for t in sig):
+            if asy and any(t == "codec::packet::RxPacket" for t in sig):
+                # the inbound handler: the async function of the client layer that takes a received packet by value
+                # (its other parameters may be the three borrows, or one private struct that bundles them)
                 put(f, "handle_packet")
             elif asy and any(t == "client::message::ContextMessage" for t in sig):
                 put(f, "handle_message")
-            elif asy and len(sig) == 2 and sig[1] == "core::base_types::NonZero<u16>" and sig[0].startswith("&mut io::packet_stream::TxPacketStream"):
+            elif asy and len(sig) in (2, 3) and sig[1] == "core::base_types::NonZero<u16>" and f.get("vis") != "pub" and "MqttError" in ret \
+                    and (sig[0].startswith("&mut io::packet_stream::TxPacketStream") or sig[0].startswith("&mut client::")) \
+                    and (len(sig) == 2 or re.fullmatch(r"[A-Z]\w*|codec::\w+::\w+Reason", sig[2])):
+                # the acknowledgement helper: (transport, packet identifier[, reason code]) -> Result<(), MqttError>
                 put(f, "ack")
             elif not asy and any(t.replace(" ", "") in ("&[u8]", "&'a[u8]") for t in sig) and ret.startswith("std::result::Result<(), ") and "MqttError" in ret and len(sig) == 2:
                 put(f, "validate_packet_size")
@@ -842,7 +955,8 @@ def load_canonical(path):
     # facts are serialised without spaces after separators in the driver; normalise for the textual rewrites
     d = json.loads(text)
     oe = optionlike_enums(d)
-    if split_struct_variants(d) or oe:
+    fer = flatten_embedded_request(d)
+    if split_struct_variants(d) or oe or fer:
         text = json.dumps(d, separators=(",", ":"))
     st = detect_structs(d)
     text2, renamed = canonicalise_structs(text, st)
@@ -877,6 +991,8 @@ def load_canonical(path):
         renamed.append(["newtype", e_["newtype"], e_["field"]])
     for e_ in oe:
         renamed.append(["option-like enum", e_, "std::option::Option"])
+    if fer:
+        renamed.append(["embedded", fer["embedded"], fer["owners"]])
     if fq:
         renamed.append(["bundle", fq["bundle"], fq["roles"]])
     fns, prefix = detect_fns(d)
